@@ -20,7 +20,9 @@ EXPLANATION = (
     'failure placeholder token has only `word`, and Token.__getattr__ raises KeyError); R19.4 feature members used on '
     '`.feature` values exist on every feature class or are guarded by a type test, and shape-specific attribute reads on '
     'category parameters are shape-guarded (the placeholder category is a plain NP).  Value-dependent failures (e.g. '
-    'XML-illegal characters) and the ccg2lambda pipeline (needs nltk) are not decided.')
+    'XML-illegal characters) and the ccg2lambda pipeline (needs nltk) are not decided.'
+    ' Failure is reported exactly when no tree was found (no empty result list reaches a printer); no default argument of the printers evaluates the language at import time.'
+)
 TRUSTED = ['CPython ast', 'sa/pysym.py path walker', 'label extraction shared with C03/C04']
 
 PROLOG = 'depccg/printer/prolog.py'
